@@ -31,7 +31,8 @@ type upProc struct {
 	Mode       string   `json:"mode,omitempty"`     // "" long-running | "restarting" (exits, restart always) | "pending" (waits for a dependency that never completes)
 	Replicas   int      `json:"replicas,omitempty"` // replicated processes are kept, removed, or get one more replica
 	Foreground bool     `json:"foreground,omitempty"`
-	SigMs      int      `json:"sig_ms,omitempty"` // reaction time to the stop signal
+	WaitDeps   bool     `json:"wait_deps,omitempty"` // dependencies carry condition process_completed instead of process_started: the process stays Pending
+	SigMs      int      `json:"sig_ms,omitempty"`    // reaction time to the stop signal
 }
 
 type upSpec struct {
@@ -99,7 +100,11 @@ func upYAML(procs []upProc, worldID int) string {
 		if len(p.Deps) > 0 || p.Mode == "pending" {
 			b.WriteString("    depends_on:\n")
 			for _, d := range p.Deps {
-				fmt.Fprintf(&b, "      %s:\n        condition: process_started\n", d)
+				cond := "process_started"
+				if p.WaitDeps {
+					cond = "process_completed"
+				}
+				fmt.Fprintf(&b, "      %s:\n        condition: %s\n", d, cond)
 			}
 			if p.Mode == "pending" {
 				b.WriteString("      anchor:\n        condition: process_completed\n")
@@ -136,9 +141,12 @@ func genUpSpec(rng *rand.Rand, i int) upSpec {
 		}
 		if k > 0 && rng.Intn(3) == 0 {
 			// only long-running processes are dependency targets
-			if d := cur[rng.Intn(k)]; d.Mode == "" {
+			if d := cur[rng.Intn(k)]; d.Mode == "" && !d.Disabled {
 				p.Deps = []string{d.Name}
 			}
+		}
+		if i%6 == 5 && rng.Intn(3) == 0 {
+			p.Disabled = true
 		}
 		if i%3 == 1 {
 			switch rng.Intn(4) {
@@ -155,7 +163,8 @@ func genUpSpec(rng *rand.Rand, i int) upSpec {
 	}
 	sp.Versions = append(sp.Versions, cur)
 	updates := 1 + rng.Intn(3)
-	fields := []string{"args", "env-value", "env-add", "working_dir", "restart", "backoff", "probe", "signal", "deps", "executable", "none"}
+	frozen := map[string]bool{} // dependencies of a waiting process: never touched again
+	fields := []string{"args", "env-value", "env-add", "working_dir", "restart", "backoff", "probe", "signal", "deps", "executable", "none", "dep-condition", "dep-retarget"}
 	for u := 0; u < updates; u++ {
 		next := make([]upProc, 0, len(cur))
 		var changed, desc, flex []string
@@ -170,6 +179,9 @@ func genUpSpec(rng *rand.Rand, i int) upSpec {
 			action := rng.Intn(10)
 			if i%4 == 0 {
 				action = 3 + rng.Intn(7) // one-field-at-a-time sensitivity runs: never remove
+			}
+			if frozen[p.Name] && (action == 0 || action >= 5) {
+				action = 1
 			}
 			if p.Replicas > 1 && action >= 1 {
 				if action >= 7 && p.Replicas < 9 {
@@ -246,16 +258,60 @@ func genUpSpec(rng *rand.Rand, i int) upSpec {
 					// depend on an earlier process it did not depend on yet (stays acyclic)
 					did = false
 					for _, o := range next {
+						if q.WaitDeps {
+							break
+						}
 						has := false
 						for _, d := range q.Deps {
 							if d == o.Name {
 								has = true
 							}
 						}
-						if !has && o.Name < q.Name && o.Mode == "" {
+						if !has && o.Name < q.Name && o.Mode == "" && !o.Disabled && !o.waits() {
 							q.Deps = append(q.Deps, o.Name)
 							did = true
 							break
+						}
+					}
+				case "dep-condition":
+					// only the condition of the existing dependencies changes
+					did = len(q.Deps) > 0 && q.Mode == "" && !q.Disabled
+					for _, o := range cur {
+						for _, d := range o.Deps {
+							if d == q.Name {
+								did = false // something depends on it: it has to come up
+							}
+						}
+					}
+					for _, d := range q.Deps {
+						for _, c := range changed {
+							if c == d {
+								did = false // its dependency is replaced by this very update
+							}
+						}
+					}
+					if did {
+						q.WaitDeps = !q.WaitDeps
+						for _, d := range q.Deps {
+							frozen[d] = true
+						}
+					}
+				case "dep-retarget":
+					// same number of dependencies, one of them points elsewhere
+					did = false
+					if len(q.Deps) > 0 && q.Mode == "" && !q.WaitDeps {
+						for _, o := range next {
+							has := false
+							for _, d := range q.Deps {
+								if d == o.Name {
+									has = true
+								}
+							}
+							if !has && o.Name < q.Name && o.Mode == "" && !o.Disabled && !o.waits() {
+								q.Deps[len(q.Deps)-1] = o.Name
+								did = true
+								break
+							}
 						}
 					}
 				case "executable":
@@ -316,6 +372,11 @@ func genUpSpec(rng *rand.Rand, i int) upSpec {
 	return sp
 }
 
+// waits: the process never gets past Pending while the project runs
+func (p *upProc) waits() bool {
+	return p.Mode == "pending" || (p.WaitDeps && len(p.Deps) > 0)
+}
+
 func procMap(ps []upProc) map[string]*upProc {
 	m := map[string]*upProc{}
 	for i := range ps {
@@ -342,7 +403,7 @@ func instances(ps []upProc) map[string]*upProc {
 func steadyAlive(ps []upProc) int {
 	n := 1 // the anchor
 	for _, p := range ps {
-		if p.Disabled || p.Mode != "" || p.Foreground {
+		if p.Disabled || p.Mode != "" || p.Foreground || p.waits() {
 			continue
 		}
 		k := p.Replicas
@@ -606,6 +667,35 @@ func runUpdate(c fw.Case) fw.Result {
 				signalled[e.Proc] = true
 			}
 		}
+		// an old instance that had to go (changed or removed process) has
+		// exited by the time the update request returns
+		for n, op := range oldV {
+			np, kept := newV[n]
+			if op.Mode != "" || op.waits() || op.Disabled || op.Foreground || flex[n] {
+				continue
+			}
+			if kept && !changed[np.Name] {
+				continue
+			}
+			var lastLaunch, lastExit *sim.Event
+			for k := range all[:nBefore] {
+				if e := &all[k]; e.Proc == n && e.Kind == sim.EvLaunch {
+					lastLaunch = e
+				}
+			}
+			if lastLaunch == nil {
+				continue
+			}
+			for k := range all {
+				if e := &all[k]; e.Proc == n && e.Kind == sim.EvExit && e.Att == lastLaunch.Att && e.Seq < retSeq {
+					lastExit = e
+				}
+			}
+			r.Count("old_instances_checked", 1)
+			if lastExit == nil {
+				r.Add("C14", "old-instance-alive-after-update-returned", "update %d (%v): the old command of %s (attempt %d) had not exited when the update request returned", u, sp.Fields[u-1], n, lastLaunch.Att)
+			}
+		}
 		if launched["anchor"] != nil || signalled["anchor"] {
 			r.Add("C14", "unchanged-disturbed", "update %d: the untouched process 'anchor' was signalled or relaunched", u)
 		}
@@ -613,7 +703,7 @@ func runUpdate(c fw.Case) fw.Result {
 			op, existed := oldV[n]
 			switch {
 			case !existed:
-				if !np.Disabled && !np.Foreground && np.Mode != "pending" && launched[n] == nil {
+				if !np.Disabled && !np.Foreground && !np.waits() && launched[n] == nil {
 					r.Add("C14", "added-not-launched", "update %d: new process %s was not launched", u, n)
 				}
 				if np.Foreground && launched[n] != nil {
@@ -624,17 +714,17 @@ func runUpdate(c fw.Case) fw.Result {
 					r.Add("C14", "unchanged-disturbed", "update %d (%v): replica %s is not reported as updated but was signalled or relaunched", u, sp.Fields[u-1], n)
 				}
 			case changed[np.Name] || changed[n]:
-				if !op.Disabled && !op.Foreground && op.Mode == "" && !signalled[n] {
+				if !op.Disabled && !op.Foreground && op.Mode == "" && !op.waits() && !signalled[n] {
 					r.Add("C14", "changed-not-stopped", "update %d (%v): %s changed but its old instance was not signalled", u, sp.Fields[u-1], n)
 				}
-				if !np.Disabled && !np.Foreground && np.Mode != "pending" && launched[n] == nil {
+				if !np.Disabled && !np.Foreground && !np.waits() && launched[n] == nil {
 					r.Add("C14", "changed-not-relaunched", "update %d (%v): %s changed but no new instance was launched", u, sp.Fields[u-1], n)
 				}
 				if lateOldLaunch[n] > 0 {
 					r.Add("C14", "old-instance-still-launching", "update %d (%v): the old instance of %s launched its old command %d more times after the update returned", u, sp.Fields[u-1], n, lateOldLaunch[n])
 				}
 			default:
-				if np.Mode == "" && (launched[n] != nil || signalled[n]) {
+				if np.Mode == "" && !np.waits() && (launched[n] != nil || signalled[n]) {
 					r.Add("C14", "unchanged-disturbed", "update %d (%v): %s is unchanged but was %s", u, sp.Fields[u-1], n, map[bool]string{true: "relaunched", false: "signalled"}[launched[n] != nil])
 				}
 			}
@@ -683,10 +773,10 @@ func runUpdate(c fw.Case) fw.Result {
 			if _, ok := newV[n]; ok {
 				continue
 			}
-			if !op.Disabled && !op.Foreground && op.Mode == "" && !signalled[n] {
+			if !op.Disabled && !op.Foreground && op.Mode == "" && !op.waits() && !signalled[n] {
 				r.Add("C14", "removed-not-stopped", "update %d: removed process %s was not signalled", u, n)
 			}
-			if op.Mode == "" && w.IsAlive(n) {
+			if op.Mode == "" && !op.waits() && w.IsAlive(n) {
 				r.Add("C14", "removed-still-alive", "update %d: removed process %s is still alive", u, n)
 			}
 			// a removed restarting process must not launch again after the update returned
@@ -702,6 +792,53 @@ func runUpdate(c fw.Case) fw.Result {
 		}
 		if len(r.Findings) > 0 {
 			break
+		}
+	}
+	// a disabled process is not launched by the updates; started by hand
+	// afterwards it runs the configuration of the last P'
+	if len(r.Findings) == 0 && r.Inconclusive == "" {
+		last := sp.Versions[len(sp.Versions)-1]
+		for k := range last {
+			np := &last[k]
+			if !np.Disabled || np.Replicas > 1 || np.waits() || np.Mode != "" {
+				continue
+			}
+			nb := len(w.Events())
+			if err := env.Call("start", np.Name, 0, func() error { return env.Runner.StartProcess(np.Name) }); err != nil {
+				r.Add("C14", "disabled-start-failed", "StartProcess(%s) (disabled in P') failed after the updates: %v", np.Name, err)
+				continue
+			}
+			var le *sim.Event
+			w.WaitFor(3*time.Second, func(v *sim.WorldView) bool {
+				evs := v.Events()
+				for i := nb; i < len(evs); i++ {
+					if evs[i].Kind == sim.EvLaunch && evs[i].Proc == np.Name {
+						e := evs[i]
+						le = &e
+						return true
+					}
+				}
+				return false
+			})
+			r.Count("disabled_manual_starts", 1)
+			if le == nil {
+				r.Add("C14", "disabled-start-not-launched", "StartProcess(%s) returned nil but nothing was launched", np.Name)
+				continue
+			}
+			wantExe := "bash"
+			if np.Exe != "" {
+				wantExe = np.Exe
+			}
+			eff := effectiveEnv(le.Env)
+			bad := le.Str != np.Tag || len(le.Argv) == 0 || le.Argv[0] != wantExe || le.Dir != np.WorkingDir
+			for k, v := range envMap(np.Env) {
+				if eff[k] != v {
+					bad = true
+				}
+			}
+			if bad {
+				r.Add("C14", "launch-old-config:disabled", "%s (disabled, changed by the updates %v) started by hand was launched with tag %q exe %q dir %q; the last P' has tag %q exe %q dir %q env %v", np.Name, sp.Fields, le.Str, le.Argv, le.Dir, np.Tag, wantExe, np.WorkingDir, np.Env)
+			}
 		}
 	}
 	sd := make(chan struct{})
